@@ -142,7 +142,12 @@ HeldOutside(g, x, D, m) ==
   g.rootS[m] + g.raw[m] + SumObj([a \in Obj |-> g.det[a][m]])
   + SumSet([a \in Obj |-> g.valS[a][m]], LiveIn(g, x) \ D)
 
-RecCount(g, n, m) == g.rec[n][m] + (IF n = m THEN g.recL[n] ELSE 0)
+\* adoptions of m by n that count as owned references.  A self-adoption through the very
+\* same handle object (Loopback, `recL`) is documented to have no effect ("Self-adoptions
+\* have no effect", src/adopt.rs) and the crate's own tests record such adoptions without
+\* storing any handle, so it is bookkeeping only: it is neither part of C01's precondition
+\* nor of C03's premise.
+RecCount(g, n, m) == g.rec[n][m]
 
 \* objects reachable from the program's handles through stored handles
 RECURSIVE ReachFrom(_, _, _)
@@ -734,12 +739,15 @@ Spec == Init /\ [][Next]_vars
 C01 == ~led.stale =>
          \A o \in Reach : heap.mem[o] = "alloc" /\ heap.vinit[o] /\ ob.nd[o] = 0 /\ ob.nf[o] = 0
 
-C02 == /\ ob.ub = {}
+\* scope: histories that respect the contract of adopt_unchecked (C01's precondition); what
+\* happens after removing a recorded handle without unadopt is C13's subject
+C02 == ~led.stale =>
+       /\ ob.ub = {}
        /\ \A o \in Obj : ob.nd[o] <= 1 /\ ob.nf[o] <= 1
 
 C03 == "C03" \notin ob.flags
 
-C04 == Quiescent =>
+C04 == Quiescent /\ ob.ub = {} =>
        /\ ob.xblocks = 0
        /\ \A o \in Made(led) :
            (ob.nd[o] > 0 \/ led.gone[o]) /\ o \notin led.panicked =>
@@ -751,7 +759,7 @@ C05 == /\ "C05" \notin ob.flags
        /\ \A o \in Made(led) : WeakHandles(o) > 0 => heap.mem[o] = "alloc"
        /\ \A o \in Made(led) : ob.nd[o] > 0 /\ heap.mem[o] = "alloc" => heap.strong[o] \in {0, UNINIT}
 
-C06 == UserPoint =>
+C06 == UserPoint /\ ob.ub = {} =>
          \A o \in Made(led) :
            Intact(o) /\ ob.nd[o] = 0 /\ ~led.gone[o] =>
              /\ heap.strong[o] = Handles(o)
@@ -761,7 +769,7 @@ TableImplied(a) ==
   [k \in Key |-> CASE k[1] = "F" -> led.rec[a][k[2]]
                    [] k[1] = "B" -> led.rec[k[2]][a]
                    [] k[1] = "L" -> IF k[2] = a THEN led.recL[a] ELSE 0]
-C08 == Quiescent =>
+C08 == Quiescent /\ ob.ub = {} =>
          \A a \in Made(led) :
            Intact(a) /\ ob.nd[a] = 0 /\ ~led.gone[a] => heap.links[a] = TableImplied(a)
 
